@@ -48,6 +48,9 @@ pub enum Simple {
     SendH { host: String, node: String, lane: String, value: i32, ow: bool },
     #[form(tag = "fail")]
     Fail,
+    /// set lane `v` from a timer of the agent itself, `d` tenths of the inactivity timeout from now
+    #[form(tag = "laterv")]
+    LaterV { d: i32, v: i32 },
 }
 
 /// A command to lane `c`: a sequence of primitive actions executed by one handler.
@@ -267,6 +270,7 @@ impl TestLifecycle {
                             .followed_by(context.effect(move || log.push(Truth::Sent { node, lane, value, ow }))),
                     )
                 }
+                Simple::LaterV { d, v } => Box::new(context.run_after(std::time::Duration::from_secs(3) * (d.max(0) as u32), context.set_value(TestAgent::V, v))),
                 Simple::Fail => Box::new(context.fail::<(), _>(std::io::Error::new(std::io::ErrorKind::Other, "requested failure"))),
             };
             handlers.push(h);
